@@ -5,6 +5,7 @@ package props
 import (
 	"bytes"
 	"fmt"
+	"io"
 	"strings"
 	"testing"
 	"time"
@@ -198,9 +199,29 @@ func c17Run(t *rapid.T, ops []c17Op, lvl zapcore.Level, wrap ...func(zapcore.Cor
 		// hand over a private copy and scribble over it afterwards: the writer
 		// must not retain the caller's slice.
 		p := append([]byte(nil), o.Chunk...)
-		n, err := w.Write(p)
+		// equivalent routes by which bytes reach an io.Writer: they must agree with Write at the level of the
+		// stream (where a chunk ends is never a split point, whichever route delivered it)
+		route := rapid.SampledFrom([]string{"Write", "Write", "io.WriteString", "io.Copy", "io.CopyBuffer(7)", "fmt.Fprint"}).Draw(t, "route")
+		var n int
+		var err error
+		switch route {
+		case "io.WriteString":
+			n, err = io.WriteString(w, string(p))
+		case "io.Copy": // a reader without WriteTo: io.Copy uses the writer's ReadFrom if it has one, its own loop otherwise
+			var n64 int64
+			n64, err = io.Copy(w, struct{ io.Reader }{bytes.NewReader(p)})
+			n = int(n64)
+		case "io.CopyBuffer(7)":
+			var n64 int64
+			n64, err = io.CopyBuffer(struct{ io.Writer }{w}, struct{ io.Reader }{bytes.NewReader(p)}, make([]byte, 7))
+			n = int(n64)
+		case "fmt.Fprint":
+			n, err = fmt.Fprint(w, string(p))
+		default:
+			n, err = w.Write(p)
+		}
 		if n != len(o.Chunk) || err != nil {
-			t.Fatalf("op %d: Write(%d bytes) = (%d, %v), want (%d, nil)", i, len(o.Chunk), n, err, len(o.Chunk))
+			t.Fatalf("op %d: %s of %d bytes = (%d, %v), want (%d, nil)", i, route, len(o.Chunk), n, err, len(o.Chunk))
 		}
 		for j := range p {
 			p[j] = '#'
